@@ -132,7 +132,28 @@ pub open spec fn strip_once(s: Seq<char>) -> Seq<char> {
 }
 
 pub open spec fn da_key(f: PatchedFile) -> std::path::PathBuf {
+    path_of(strip_once(unquote_spec(f.target_file@)))
+}
+
+/// the key the pre-90ac6cb code used: the target as written in the diff, quotes and escapes included
+pub open spec fn da_key_raw(f: PatchedFile) -> std::path::PathBuf {
     path_of(strip_once(f.target_file@))
+}
+
+/// the file is deleted by the diff: git (and every unified diff) names its target `/dev/null`
+pub open spec fn deleted_file(f: PatchedFile) -> bool {
+    f.target_file@ == "/dev/null"@
+}
+
+/// KF3 carve-out: unidiff's `is_removed_file` heuristic (exactly one hunk, target `+0,0`) holds for
+/// no file whose target is not `/dev/null`
+pub open spec fn kf3_carve_out(files: Seq<PatchedFile>) -> bool {
+    forall|i: int| 0 <= i < files.len() && !deleted_file(#[trigger] files[i]) ==> !removed_file(files[i])
+}
+
+/// a file contributes nothing ONLY IF it is deleted (C01/C12)
+pub open spec fn only_deleted_files_are_skipped(files: Seq<PatchedFile>, m: Map<std::path::PathBuf, Vec<LineChange>>) -> bool {
+    forall|i: int| 0 <= i < files.len() && !deleted_file(#[trigger] files[i]) ==> m.contains_key(da_key(files[i]))
 }
 
 /// the contract of D-b `line_changes` as one predicate
